@@ -987,7 +987,7 @@ func mutate(rng *vh.Rand, b []byte) []byte {
 func genC18(r *vh.Runner) {
 	cs := codecs()
 	_ = ed25519.PublicKeySize
-	nb := r.Pick(8, 6000)
+	nb := r.Pick(8, 12000)
 	per := r.Pick(150, 300)
 	for _, cd := range cs {
 		for b := 0; b < nb; b++ {
